@@ -172,7 +172,7 @@ def computed(items, sts, force):
         if ws[0] == 'queues':
             out.append('queuesB %d %s' % (force, sts))
         elif ws[0] == 'pr':
-            out.append('prB %s %s' % (' '.join(ws[1:6]), sts))
+            out.append('prB %s %s %s' % (' '.join(ws[1:6]), sts, ws[7] if len(ws) > 7 else '0'))   # ws[7]: no_octopus
         else:
             out.append(it)
     return out
